@@ -401,13 +401,28 @@ def _replay_file(job):
     return n, len(groups), stats, problems, samples
 
 
-def _pool_map(fn, chunks):
-    procs = min(_procs(), len(chunks)) if chunks else 1
-    if procs <= 1:
-        return [fn(c) for c in chunks]
-    import multiprocessing as mp
-    with mp.get_context("fork").Pool(procs) as pool:
-        return pool.map(fn, chunks, chunksize=1)
+class Workers:
+    """Worker processes for the real-code executions.  Forked on entry - before any TLC thread is
+    started and, in the selftest, while the mutation probe is patched in - and reused for the run."""
+
+    def __init__(self) -> None:
+        self.pool = None
+
+    def __enter__(self) -> "Workers":
+        if _procs() > 1:
+            import multiprocessing as mp
+            self.pool = mp.get_context("fork").Pool(_procs())
+        return self
+
+    def __exit__(self, *exc) -> None:
+        if self.pool is not None:
+            self.pool.terminate()
+            self.pool.join()
+
+    def map(self, fn, jobs):
+        if self.pool is None or len(jobs) <= 1:
+            return [fn(j) for j in jobs]
+        return self.pool.map(fn, jobs, chunksize=1)
 
 
 def _write_cfg(path: Path, spec: str, consts: Dict[str, Any], invariants: List[str], props: List[str]) -> None:
@@ -422,9 +437,8 @@ def _write_cfg(path: Path, spec: str, consts: Dict[str, Any], invariants: List[s
     path.write_text("\n".join(lines) + "\n")
 
 
-def model_check(chk: Check, name: str, bounds: Dict[str, Any], parts: int) -> List[Path]:
-    """Run MC_C11, split by signature over `parts` TLC processes; returns the exported part files
-    (one JSON line per reachable state = one case)."""
+def start_model_check(ex: ThreadPoolExecutor, name: str, bounds: Dict[str, Any], parts: int):
+    """Submit MC_C11, split by signature over `parts` TLC processes, to the executor."""
     w = workdir("c11mc")
     jobs = []
     for part in range(parts):
@@ -437,8 +451,14 @@ def model_check(chk: Check, name: str, bounds: Dict[str, Any], parts: int) -> Li
     def one(job):
         cfg, out = job
         return tlc.run("MC_C11", str(cfg), env={"OUT": str(out)}, workers=1, heap="2g")
-    with ThreadPoolExecutor(max_workers=min(parts, 4)) as ex:
-        results = list(ex.map(one, jobs))
+    return jobs, [ex.submit(one, j) for j in jobs]
+
+
+def finish_model_check(chk: Check, name: str, started) -> List[Path]:
+    """Wait for the TLC processes of one configuration; returns the exported part files (one JSON
+    line per reachable state = one case) after checking that the export is complete."""
+    jobs, futures = started
+    results = [f.result() for f in futures]
     per_part = []
     for part, ((cfg, out), r) in enumerate(zip(jobs, results)):
         tlc.require_ok(r, f"MC_C11 {name} part {part}")
@@ -463,11 +483,11 @@ def model_check(chk: Check, name: str, bounds: Dict[str, Any], parts: int) -> Li
     return [out for _, out in jobs]
 
 
-def replay_files(chk: Check, files: List[Path], label: str) -> None:
+def replay_files(chk: Check, files: List[Path], label: str, workers: Workers) -> None:
     """spec -> code: replay every exported case on the real tags (both paths) and on CPython."""
     jobs = [(str(f), label, 40) for f in files]
     total = 0
-    for n, n_sigs, stats, problems, samples in _pool_map(_replay_file, jobs):
+    for n, n_sigs, stats, problems, samples in workers.map(_replay_file, jobs):
         total += n
         for k, v in stats.items():
             chk.add(f"{label}_{k}" if k != "nontrivial" else "distinct_nontrivial", v)
@@ -570,7 +590,7 @@ def _verdicts(out: str, n: int) -> Dict[str, Any]:
 
 
 def validate_traces(chk: Check, total: int, max_params: int, max_items: int,
-                    inside: List[Tuple[int, int]] = ()) -> None:
+                    inside: List[Tuple[int, int]], workers: Workers) -> None:
     w = workdir("c11tr")
     per = 250       # fixed, so that the cases do not depend on the number of worker processes
     jobs = []
@@ -580,7 +600,7 @@ def validate_traces(chk: Check, total: int, max_params: int, max_items: int,
         jobs.append((chk.seed * 1000003 + 11 * (len(jobs) + 1), n + 1, c, max_params, max_items))
         n += c
     traces: List[Dict[str, Any]] = []
-    for part in _pool_map(_record_cases, jobs):
+    for part in workers.map(_record_cases, jobs):
         traces += part
     src = {t["id"]: t.pop("_src") for t in traces}
     f = w / "traces.ndjson"
@@ -651,19 +671,31 @@ THOROUGH = [
 ]
 
 
-def core(chk: Check, configs, ntraces: int, max_params: int, max_items: int) -> None:
+def core(chk: Check, configs, ntraces: int, max_params: int, max_items: int,
+         cache: Dict[str, List[Path]] = None) -> None:
+    """All TLC runs are queued at once (4 at a time); each configuration is replayed as soon as its
+    export is complete, while TLC works on the next one.  `cache`: exports kept between selftest
+    probes (they do not depend on the library)."""
     import time
-    for name, bounds, parts in configs:
+    with Workers() as workers, ThreadPoolExecutor(max_workers=4) as ex:
+        started = {name: start_model_check(ex, name, bounds, parts)
+                   for name, bounds, parts in configs if cache is None or name not in cache}
+        for name, bounds, parts in configs:
+            t0 = time.time()
+            if name in started:
+                files = finish_model_check(chk, name, started[name])
+                if cache is not None:
+                    cache[name] = files
+            else:
+                files = cache[name]
+            t1 = time.time()
+            replay_files(chk, files, name, workers)
+            chk.cov.setdefault("wall_s_by_phase", {})[name] = {"waiting_for_tlc": round(t1 - t0, 1),
+                                                              "replay": round(time.time() - t1, 1)}
         t0 = time.time()
-        files = model_check(chk, name, bounds, parts)
-        t1 = time.time()
-        replay_files(chk, files, name)
-        chk.cov.setdefault("wall_s_by_phase", {})[name] = {"tlc": round(t1 - t0, 1),
-                                                          "replay": round(time.time() - t1, 1)}
-    t0 = time.time()
-    validate_traces(chk, ntraces, max_params, max_items,
-                    [(b["MaxParams"], b["MaxItems"]) for _, b, _ in configs])
-    chk.cov.setdefault("wall_s_by_phase", {})["traces"] = round(time.time() - t0, 1)
+        validate_traces(chk, ntraces, max_params, max_items,
+                        [(b["MaxParams"], b["MaxItems"]) for _, b, _ in configs], workers)
+        chk.cov.setdefault("wall_s_by_phase", {})["traces"] = round(time.time() - t0, 1)
 
 
 def builtin_tags(chk: Check, configs) -> None:
@@ -891,10 +923,6 @@ def selftest(tier: str) -> int:
     ]
 
     def body(chk: Check) -> None:
-        for name, bounds, parts in SELFTEST_CONFIGS:
-            if name not in _FILES_CACHE:       # the export does not depend on the library
-                _FILES_CACHE[name] = model_check(chk, name, bounds, parts)
-            replay_files(chk, _FILES_CACHE[name], name)
-        validate_traces(chk, 1500, 5, 5, [(2, 3)])
+        core(chk, SELFTEST_CONFIGS, 1500, 5, 5, cache=_FILES_CACHE)
 
     return run_probes(PID, probes, body)
